@@ -309,7 +309,8 @@ pub fn tri_case() -> BoxedStrategy<TriCase> {
             (tri_local(e), off, Just(k))
         })
         .prop_map(|((shape, v), off, k)| {
-            let v = v.map(|p| [p[0] + off[0], p[1] + off[1]]);
+            // (adding a zero offset would turn -0.0 into +0.0)
+            let v = v.map(|p| [if off[0] == 0.0 { p[0] } else { p[0] + off[0] }, if off[1] == 0.0 { p[1] } else { p[1] + off[1] }]);
             let v = perm(v, k);
             TriCase { shape, v: v.map(|p| [X(p[0]), X(p[1])]) }
         })
@@ -344,7 +345,7 @@ pub fn check_random(c: &TriCase, obs: &mut Obs) -> Check {
     let v = c.pts();
     let t = c.pts64();
     for p in &v {
-        ensure!(p[0].is_finite() && p[1].is_finite() && p[0] >= 0.0 && p[1] >= 0.0, "bad-case", "generator produced an out-of-domain vertex {p:?}");
+        ensure!(p[0].is_finite() && p[1].is_finite() && p[0] > -0.5 && p[1] > -0.5, "bad-case", "generator produced an out-of-domain vertex {p:?}");
     }
     let rows = match rasterize(v) {
         Ok(r) => r,
@@ -402,6 +403,9 @@ pub fn check_random(c: &TriCase, obs: &mut Obs) -> Check {
     obs.class(if maxc <= 128.0 { "band:strict-0.001" } else { "band:scaled" });
     if n_amb > 0 {
         obs.class("has-centre-in-band");
+    }
+    if v.iter().flatten().any(|c| c.is_sign_negative()) {
+        obs.class(if v.iter().flatten().any(|c| *c < 0.0) { "has-coordinate-in(-0.5,0)" } else { "has-negative-zero-coordinate" });
     }
     if n_inside > 0 {
         obs.nontrivial(hash_of(&c.v));
@@ -531,7 +535,7 @@ pub fn check_mesh(c: &MeshCase, obs: &mut Obs) -> Check {
 // ------------------------------------------------------------------ entry points
 
 pub fn run(cx: &mut Ctx) {
-    cx.assume("coordinates handed to tri_fill are finite and non-negative (every caller in the crate clips to the viewport first; DESIGN D-b)");
+    cx.assume("coordinates handed to tri_fill are finite and > -0.5, i.e. non-negative up to the rounding of the viewport transform, -0.0 included (every caller in the crate clips to the viewport first; DESIGN D-b)");
     cx.assume("the 0.001 px band is asserted at full strength for coordinates <= 128 px and widened to 6.7e-8*S^2 px beyond (f32 incremental edge stepping; DESIGN D-a)");
     cx.assume("a centre counts as 'within the band of an edge' when its signed distance to that edge's line is within the band (so the mitre beyond a very sharp tip is ambiguous)");
     lattice_sub(cx, "lattice-half-0..4", 2, 4);
